@@ -158,7 +158,7 @@ def gen_cell(rseed: int, tier: str) -> Dict[str, Any]:
     valid = [d["id"] for d in docs if pr[f"{d['id']}:1"][0] == "db"]
     r = g.random()
     big = [i for i in valid if len(docs[i]["text"]) > 8192]
-    tiny = [d["id"] for d in docs if d["name"] in ("empty", "only-comment", "blank-lines")]
+    tiny = [d["id"] for d in docs if d["name"] in ("empty", "only-comment", "blank-lines", "comment-slashes", "comment-tmp")]
     if big and r < 0.04:
         doc = g.choice(big)
     elif tiny and r < 0.08:
